@@ -76,6 +76,7 @@ type Unit struct {
 	caseTag    string
 	caseCond   *Term
 	loopFirst  [][2]*Term
+	symAddrs   []*Term
 }
 
 func (e *Engine) NewUnit(fn *ssa.Function, bc *BoundContract) *Unit {
@@ -105,7 +106,15 @@ func (u *Unit) assume(st *State, f *Term) {
 
 func (u *Unit) newObj() *Term {
 	u.nextObj++
-	return u.C.Obj(u.nextObj)
+	o := u.C.Obj(u.nextObj)
+	c := u.C
+	for _, v := range u.symAddrs {
+		// v was created before this allocation: it is not the new object nor an address directly inside it
+		u.assumeGlobal(c.And(c.Ne(v, o),
+			c.Not(c.And(c.IsFld(v), c.Eq(c.FldBase(v), o))),
+			c.Not(c.And(c.IsIdx(v), c.Eq(c.IdxBase(v), o)))))
+	}
+	return o
 }
 
 func (u *Unit) oblige(st *State, kind, name string, pos token.Pos, goal *Term) {
@@ -1337,9 +1346,16 @@ func (u *Unit) strEq(st *State, x, y *SliceV) *Term {
 		return c.And(cs...)
 	}
 	name := c.DeclareUF("streq", []Sort{SAddr, BV(64), BV(64), SAddr, BV(64), BV(64)}, SBool)
-	u.Trusted["equality of non-constant strings is an uninterpreted predicate with length congruence"] = true
 	e := c.App(name, SBool, x.Base, x.Off, x.Len, y.Base, y.Off, y.Len)
 	u.assumeGlobal(c.Implies(e, lenEq))
+	// definition: equal strings have equal lengths and equal bytes (string contents are immutable)
+	if st == nil {
+		st = &State{mems: map[string]*Mem{}}
+	}
+	k := c.BoundVar("si", BV(64))
+	bytesEq := c.Forall([]*Term{k}, c.Implies(c.ULt(k, x.Len),
+		c.Eq(u.readCell(st, "bv8", c.Idx(x.Base, c.AddRaw(x.Off, k))), u.readCell(st, "bv8", c.Idx(y.Base, c.AddRaw(y.Off, k))))))
+	u.assumeGlobal(c.Eq(e, c.And(lenEq, bytesEq)))
 	return e
 }
 
@@ -1457,6 +1473,12 @@ func (fr *frame) assertsAtCall(st *State, x *ssa.Call) {
 			env = fr.specEnv(fr.bc, st)
 		}
 		g := env.evalBool(as.Expr)
+		if as.Clause.Kind == "assume" {
+			// an assumed fact at a program point (e.g. a map invariant relating the iterated key and value): listed
+			fr.u.Trusted["assumed at call "+name+" in "+fr.fn.Name()+": "+strings.Join(strings.Fields(as.Clause.Text), " ")] = true
+			fr.u.assume(st, g)
+			continue
+		}
 		fr.u.oblige(st, "assert", "at call "+name+": "+strings.Join(strings.Fields(as.Clause.Text), " "), x.Pos(), g)
 		_ = g // asserted facts are not added as hypotheses: each assert stands alone and later queries stay small
 	}
